@@ -332,6 +332,33 @@ def explore_shard(acc, shard):
                         acc.count("nontrivial")
                         if fails:
                             report(acc, layer, case, fails)
+        # every column of the first row keysounded (indices of 1 .. 6 digits), 1..16 columns; and notes far out
+        for cols in range(1, 17):
+            for ks in (7, 10, 100, 1000, 123456):
+                for b in (Fraction(0), Fraction(9, 2)):
+                    stream = [(b, c, "1" if c % 2 else "M", 0, ks) for c in range(cols)]
+                    case = {"kind": "stream", "cols": cols, "stream": fmt_stream(stream)}
+                    core.guard_cheap(acc, case)
+                    fails = check_stream(stream, cols)
+                    acc.count("evaluations")
+                    acc.count("states")
+                    acc.count("transitions")
+                    acc.count("nontrivial")
+                    acc.outcome("keysounded note written")
+                    if fails:
+                        report(acc, layer, case, fails)
+        for far in (Fraction(3980), Fraction(4000), Fraction(4003, 1), Fraction(16001, 4)) + ((Fraction(40000),) if REUSE_MAX[0] > 2 else ()):
+            for stream in ([(far, 0, "1", 0, None)], [(Fraction(0), 1, "2", 0, None), (far, 1, "3", 0, None)], [(far, 0, "1", 0, None), (far + Fraction(1, 48), 1, "M", 1, 5)]):
+                case = {"kind": "stream", "cols": 2, "stream": fmt_stream(stream)}
+                core.guard(acc, case)
+                fails = check_stream(stream, 2)
+                acc.count("evaluations")
+                acc.count("states")
+                acc.count("transitions")
+                acc.count("nontrivial")
+                acc.outcome("note a thousand measures out")
+                if fails:
+                    report(acc, layer, case, fails)
         acc.sample(layer, case)
     elif kind == "T":
         _, shapes = shard
@@ -403,7 +430,7 @@ def explore(run):
         + " x columns, k = "
         + ", ".join(f"{(t if run.thorough() else q)} for {c} column(s)" for c, q, t in plan)
         + " (built note by note; every prefix is a state); V: all 9 types x 4 keysound values on 1- and 2-note streams; "
-        "W: 1..16 columns; D: beats with denominators 32..192; Q: every pair of beat denominators from "
+        "W: 1..16 columns (also with every column keysounded, indices of 1..6 digits) and notes on beats 3980..4003 (a thousand measures of rests); D: beats with denominators 32..192; Q: every pair of beat denominators from "
         + ",".join(map(str, Q_DENOMS)) + " (and triples of the smaller ones) in one measure, first and second measure; T: decode/re-encode of generated texts (rows-per-measure shapes x players x styles) and corpus charts. "
         "Every note data object is also read again (after an abandoned pass, through two iterators at once) and fed back to from_notes as a generator and as itself"
         + (" (layer S: streams of <= 2 notes only). " if not run.thorough() else ". ")
@@ -418,6 +445,7 @@ def explore(run):
     core.require(acc.outcomes["off-grid beat"] > 0, "no off-grid beat")
     core.require(acc.outcomes["skipped measure"] > 0, "no skipped measure")
     core.require(acc.outcomes["keysounded note written"] > 0, "no keysound")
+    core.require(acc.outcomes["note a thousand measures out"] > 0, "no far note")
     core.require(acc.distinct("measure lcm") >= 20, "Q layer reached too few distinct row counts")
     return run.finish(
         states=acc.c["states"],
